@@ -10,6 +10,10 @@ def replay(prop, path, vxname):
     case = body.get("case", {})
     if "cli_c17" in case or "cli_c18" in case or "cli_c08" in case or "cli_c08_repeat" in case or "cli_c08_show" in case:
         defects = cli_cfg.replay_case(prop, case)
+    elif "cli_cyc_ckpt" in case:
+        n, edges = case["cli_cyc_ckpt"]
+        r = cli_slices.cyc_ckpt_task((n, [tuple(e) for e in edges]))
+        defects = [{"sig": "cli:" + s, "detail": d} for s, d, _ in r["v"]]
     elif "cli_config" in case or "cli_graph" in case:
         if "cli_graph" in case:
             g = case["cli_graph"]
